@@ -49,6 +49,7 @@ type Ctx struct {
 	RuleDocs    map[string]string
 	NotDecided  []string
 	Assumptions []string
+	SelfTest    *SelfTest
 }
 
 // NewCtx creates a context.
@@ -146,6 +147,14 @@ type Outcome struct {
 	Known      []*Obligation
 }
 
+// SelfTest results (thorough tier) are added to the evidence.
+type SelfTest struct {
+	Total   int      `json:"mutants_total"`
+	Killed  int      `json:"mutants_killed"`
+	Skipped int      `json:"mutants_skipped"`
+	Details []string `json:"mutants"`
+}
+
 // Finish matches violations against known findings, writes evidence and replay files,
 // prints the interface lines and returns the exit code.
 func (c *Ctx) Finish(verif string, start time.Time, seed int, explanation string) int {
@@ -240,6 +249,9 @@ func (c *Ctx) Finish(verif string, start time.Time, seed int, explanation string
 			"stubs/quic-go (type-level http3 stub)", "verif/internal/flow engine"},
 		"exhaustive": false,
 	}
+	if c.SelfTest != nil {
+		cov["selftest"] = c.SelfTest
+	}
 	ev := map[string]any{
 		"property_id": c.Property,
 		"tier":        c.Tier,
@@ -254,7 +266,9 @@ func (c *Ctx) Finish(verif string, start time.Time, seed int, explanation string
 		"wall_s":     time.Since(start).Seconds(),
 		"violations": len(viol),
 	}
-	if err := os.MkdirAll(filepath.Join(verif, "evidence", "replay"), 0o755); err == nil {
+	if os.Getenv("VERIF_NO_EVIDENCE") != "" {
+		// sub-run of the self-test: report only
+	} else if err := os.MkdirAll(filepath.Join(verif, "evidence", "replay"), 0o755); err == nil {
 		b, _ := json.MarshalIndent(ev, "", " ")
 		if err := os.WriteFile(filepath.Join(verif, "evidence", c.Property+".json"), append(b, '\n'), 0o644); err != nil {
 			fmt.Fprintln(os.Stderr, "evidence:", err)
